@@ -19,6 +19,9 @@ func main() {
 	s.PerShard = 120
 	s.Rule = "random frames (1-5 columns of all five types, 0-40 rows, boundary value pools, small alphabets half of the time) whose row index was scrambled by 0-3 of Sort/Slice/Filter/Distinct; one public operation per case; filter family: clause trees of depth <= 3 over the full comparator x argument-kind product incl. custom predicates (recorded), Or batches, inverted leaves, plus a malformed stream (1 in 4). Non-trivial = frame has rows and the index is not the identity or the clause is not a single valid leaf; distinct by Coq term."
 	r := hlib.NewRng(cfg.Seed)
+	if p, v := hlib.Recover(func() { corpusCases(s) }); p {
+		s.Fail(s.NextID(), fmt.Sprintf("the library panicked in a corpus case: %v", v), map[string]interface{}{"family": "corpus"}, "")
+	}
 	for i := 0; i < cfg.N; i++ {
 		cr := r.Fork()
 		// a panic anywhere while a case is built (derivation steps, observations) is a panic of the library on
